@@ -19,8 +19,61 @@ pub fn cfg(hostile_docs: bool) -> GenCfg {
 	GenCfg { ns_min: 2, ns_max: 4, p_missing: 25, style: TargetStyle::Arbitrary, hostile_docs, weird_dollar: true, ..GenCfg::default() }
 }
 
+/// `a/B$1` -> `a/B$01`: a `0` in front of the first digit run (None when the name has no digit)
+fn zero_variant(s: &str) -> Option<String> {
+	let i = s.find(|c: char| c.is_ascii_digit())?;
+	Some(format!("{}0{}", &s[..i], &s[i..]))
+}
+
+/// Near-twins: a class / field / method whose names differ from another entry's only by leading zeros of a digit run
+/// (in every namespace: zero variant, or equal where there is no digit).  Orders that compare digit runs by value
+/// tie on such pairs, so the written text then depends on the insertion order.
+fn add_zero_twins(m: &mut MapSet, pick: u16) {
+	let keys: Vec<String> = m.classes.keys().filter(|k| zero_variant(k).is_some()).cloned().collect();
+	if let Some(k) = keys.get(crate::engine::idx(pick, keys.len().max(1))) {
+		let twin_key = zero_variant(k).unwrap_or_default();
+		if !m.classes.contains_key(&twin_key) {
+			let mut twin = m.classes[k].clone();
+			for (i, n) in twin.names.iter_mut().enumerate() {
+				if let Some(x) = n {
+					if i == 0 {
+						*x = twin_key.clone();
+					} else if let Some(z) = zero_variant(x) {
+						*x = z;
+					}
+				}
+			}
+			twin.doc = None;
+			m.classes.insert(twin_key, twin);
+		}
+	}
+	// members of one class
+	for c in m.classes.values_mut() {
+		let fkeys: Vec<_> = c.fields.keys().filter(|k| zero_variant(&k.name).is_some()).cloned().collect();
+		if let Some(fk) = fkeys.first() {
+			let mut tk = fk.clone();
+			tk.name = zero_variant(&fk.name).unwrap_or_default();
+			if !c.fields.contains_key(&tk) {
+				let mut f = c.fields[fk].clone();
+				f.names[0] = Some(tk.name.clone());
+				for n in f.names.iter_mut().skip(1).flatten() {
+					if let Some(z) = zero_variant(n) {
+						*n = z;
+					}
+				}
+				c.fields.insert(tk, f);
+			}
+		}
+	}
+}
+
 fn strategy(hostile_docs: bool) -> impl Strategy<Value = Case> {
-	(mapset(cfg(hostile_docs)), order_seed(), order_seed(), order_seed()).prop_map(|(m, order1, order2, order3)| Case { m, order1, order2, order3 })
+	(mapset(cfg(hostile_docs)), order_seed(), order_seed(), order_seed(), any::<u16>()).prop_map(|(mut m, order1, order2, order3, tweak)| {
+		if tweak % 5 == 0 {
+			add_zero_twins(&mut m, tweak);
+		}
+		Case { m, order1, order2, order3 }
+	})
 }
 
 struct Ns;
@@ -38,6 +91,16 @@ fn round_trip<const N: usize>(case: &Case, obs: &mut Obs) -> PropResult {
 	let back = from_quill(&r).map_err(|e| format!("read result inconsistent: {e:#}\n{t1}"))?;
 	if &back != m {
 		return Err(format!("read(write(M)) != M\nM    = {m:?}\nback = {back:?}\ntext:\n{t1}"));
+	}
+	// the same through a sink that takes, and a source that hands out, only a few bytes per call
+	let mut short = crate::engine::ShortWrites::new();
+	quill::tiny_v2::write(&q1, &mut short).map_err(|e| format!("write into a sink with short writes failed: {e:#}"))?;
+	if short.out != t1.as_bytes() {
+		return Err(format!("write() into a sink that takes 1..7 bytes per call delivered {} of {} bytes", short.out.len(), t1.len()));
+	}
+	let rs = quill::tiny_v2::read::<N, Ns>(crate::engine::ShortReads::new(t1.as_bytes())).map_err(|e| format!("reading from a source with short reads failed: {e:#}"))?;
+	if from_quill(&rs).map_err(|e| format!("read result (short reads) inconsistent: {e:#}"))? != back {
+		return Err("reading from a source with short reads gives another mapping set".into());
 	}
 	let t3 = quill::tiny_v2::write_string(&r).map_err(|e| format!("re-write failed: {e:#}"))?;
 	if t3 != t1 {
@@ -64,6 +127,8 @@ fn round_trip<const N: usize>(case: &Case, obs: &mut Obs) -> PropResult {
 	obs.label_if(m.classes.keys().any(|k| !k.is_ascii()), "non_ascii_class");
 	obs.label_if(m.all_docs().iter().any(|d| d.contains('\n')), "multiline_comment");
 	obs.label_if(case.order1 != case.order2, "two_orders");
+	obs.label_if(m.classes.keys().any(|k| zero_variant(k).is_some_and(|z| m.classes.contains_key(&z))), "classes_differing_by_leading_zero");
+	obs.label_if(m.classes.values().any(|c| c.names.iter().flatten().any(|n| !n.is_empty() && n.chars().all(char::is_whitespace))), "whitespace_only_name");
 	obs.nontrivial_if(m.classes.len() >= 2 && m.has_nested() && m.any_doc() && case.order1 != case.order2);
 	Ok(())
 }
